@@ -255,7 +255,7 @@ class ImageWriter:
         """Save an image without encoding, just bytes"""
         name, path = self._create_unique_image_name(image, ".jpg")
         width, height = image.srcsize
-        if width <= 0 or height <= 0 or image.bits <= 0:
+        if width <= 0 or height <= 0 or not 0 < image.bits <= 64:
             raise PDFValueError(
                 "Cannot save an image of %r x %r pixels with %r bits per component"
                 % (width, height, image.bits)
